@@ -62,7 +62,8 @@ static int iterConv(MPT_INTERFACE(convertable) *conv, MPT_TYPE(type) type, void 
 	}
 	if (it->val) {
 		int ret = mpt_convert_string(it->val, type, dest);
-		if (ret < 0) {
+		/* error or no data (empty text): nothing was stored */
+		if (ret <= 0) {
 			return ret;
 		}
 		return 's';
